@@ -19,7 +19,10 @@ RELATED = {"C01": ["C11", "C12", "C09"], "C02": ["C14", "C05", "C07"], "C03": ["
 
 
 def sh(cmd, cwd, env, timeout=1800):
-    p = subprocess.run(cmd, cwd=cwd, env=env, capture_output=True, text=True, timeout=timeout)
+    try:
+        p = subprocess.run(cmd, cwd=cwd, env=env, capture_output=True, text=True, timeout=timeout)
+    except subprocess.TimeoutExpired:
+        return 2, f"TIMEOUT after {timeout}s"
     return p.returncode, (p.stdout + p.stderr)
 
 
